@@ -35,6 +35,10 @@ fn flag_val(extra: &[String], name: &str) -> Option<u64> {
     extra.iter().position(|x| x == name).and_then(|i| extra.get(i + 1)).and_then(|s| s.parse().ok())
 }
 
+fn flag_str(extra: &[String], name: &str) -> Option<String> {
+    extra.iter().position(|x| x == name).and_then(|i| extra.get(i + 1)).cloned()
+}
+
 fn usage() -> ! {
     eprintln!("usage: mdw-drive <imgops|dirops|...> [--in file] --out trace [--seed N] [--random N]");
     std::process::exit(2)
@@ -150,6 +154,16 @@ fn main() {
             for _ in 0..args.random {
                 let c = mdwh::sanitize::random_case(&mut rng);
                 mdwh::sanitize::run_case(&mut sy, &c, &mut tr);
+            }
+        }
+        "dump" => {
+            // input: one scenario (JSON object) per line
+            let workdir = flag_str(&args.extra, "--workdir").unwrap_or_else(|| "/tmp".into());
+            let path = args.input.clone().unwrap_or_else(|| usage());
+            let text = std::fs::read_to_string(&path).unwrap_or_else(|e| { eprintln!("{path}: {e}"); std::process::exit(2) });
+            for l in text.lines().filter(|l| !l.trim().is_empty()) {
+                let scn: Value = serde_json::from_str(l).unwrap_or_else(|e| { eprintln!("bad scenario: {e}"); std::process::exit(2) });
+                mdwh::dumprun::run_scenario(&scn, &workdir, &mut tr);
             }
         }
         _ => usage(),
